@@ -61,3 +61,9 @@ META["C11"] = {
     "level_note": "interleavings are chosen by gating Send and parking at the hand-over hook; Go scheduler nondeterminism inside a phase is sampled, not enumerated",
     "technique": "runtime monitoring with forced interleavings: gated stream consumer + parking hook, offline sequence oracle against the store",
 }
+META["C12"] = {
+    "level": "exploration",
+    "level_text": "for each explored consumer behaviour x back-end the run shows whether 1000 consecutive appends kept returning and a healthy consumer kept receiving; for each flood the aggregator cache sizes observed after 1200/5000 distinct valid partials per flooder stayed below 3x the documented per-member limit and the honest partials survived",
+    "level_note": "blocked-forever verdicts come with the goroutine dump frame; cache internals read through a hook running in the aggregator goroutine (race-free)",
+    "technique": "runtime monitoring: stalled-consumer stress with goroutine-dump oracle; hooked cache-size monitor under partial floods",
+}
